@@ -278,7 +278,12 @@ class Blackboard(object):
         if not key_attributes:
             Blackboard.storage[key] = value
         else:
-            setattr(Blackboard.storage[key], key_attributes, value)
+            # walk down to the object holding the last attribute (e.g. 'a' for 'key.a.b')
+            attribute_names = key_attributes.split(".")
+            blackboard_object = Blackboard.storage[key]
+            for attribute_name in attribute_names[:-1]:
+                blackboard_object = getattr(blackboard_object, attribute_name)
+            setattr(blackboard_object, attribute_names[-1], value)
         Blackboard.metadata.setdefault(key, KeyMetaData())
 
     @staticmethod
@@ -1032,7 +1037,11 @@ class Client(object):
         else:
             blackboard_object = getattr(self, key)
             try:
-                setattr(blackboard_object, key_attributes, value)
+                # walk down to the object holding the last attribute (e.g. 'a' for 'key.a.b')
+                attribute_names = key_attributes.split(".")
+                for attribute_name in attribute_names[:-1]:
+                    blackboard_object = getattr(blackboard_object, attribute_name)
+                setattr(blackboard_object, attribute_names[-1], value)
                 return True
             except AttributeError:  # when the object doesn't have the attributes
                 return False
